@@ -106,6 +106,10 @@ DoSetParams(s0, ev) ==
                     \cup cwFails
                     \cup (IF ev.st = OK THEN Common(ev) ELSE {}) ]
 
+(* source symbols that become available (decoded, not held by pointer) in a call are stored where the callback   *)
+(* registered AT THAT TIME says: the registration may come late or be replaced during the session                *)
+ViaCb(s0, s1) == s0.viaCb \cup { i \in (Avail(s1) \ Avail(s0)) \ s1.appHeld : WantsBuf(s0, i) }
+
 DoSetCb(s0, ev) ==
     [ s |-> [s0 EXCEPT !.cbMode = ev.mode], fails |-> F(ev.st = OK, "C11", "setcb-status") ]
 
@@ -114,7 +118,7 @@ DoSetCb(s0, ev) ==
 DoRecv(s0, ev, sid) ==
     LET s1 == RecvNext(s0, ev.esi)
         sub == IF ev.esi < s0.k THEN {ev.esi} ELSE {}
-    IN  [ s |-> [s1 EXCEPT !.cbs = s0.cbs \cup CbEsis(ev), !.everComplete = s0.everComplete \/ Complete(s1)],
+    IN  [ s |-> [s1 EXCEPT !.cbs = s0.cbs \cup CbEsis(ev), !.everComplete = s0.everComplete \/ Complete(s1), !.viaCb = ViaCb(s0, s1)],
           fails |-> F(s0.phase = "configured" /\ s0.role = "dec" /\ ~s0.finished, "INFRA", "driver-protocol")
                     \cup F(IsBin(s0) => Len(s0.H) = s0.n - s0.k, "INFRA", "no-parity-check-equations-in-trace")
                     \cup F(ev.st = OK, "C10,C11", "recv-status")
@@ -124,7 +128,7 @@ DoRecv(s0, ev, sid) ==
 DoSetAvail(s0, ev, sid) ==
     LET S  == ToSet(ev.set)
         s1 == SetAvailNext(s0, S)
-    IN  [ s |-> [s1 EXCEPT !.cbs = s0.cbs \cup CbEsis(ev), !.everComplete = s0.everComplete \/ Complete(s1)],
+    IN  [ s |-> [s1 EXCEPT !.cbs = s0.cbs \cup CbEsis(ev), !.everComplete = s0.everComplete \/ Complete(s1), !.viaCb = ViaCb(s0, s1)],
           fails |-> F(s0.phase = "configured" /\ s0.role = "dec" /\ ~s0.finished, "INFRA", "driver-protocol")
                     \cup F(ev.st = OK, "C10", "setavail-status")
                     \cup F(ev.tab_ok = 1, "C07", "setavail-table-modified")
@@ -139,7 +143,7 @@ DoFinish(s0, ev, sid) ==
         \* the "iff recoverable" of C03 and the MDS threshold of C02 are decided here,
         \* from the equations / the count only
         tagOk == IF IsRS(s0) THEN "C10,C02" ELSE "C10,C03"
-    IN  [ s |-> [s1 EXCEPT !.cbs = s0.cbs \cup CbEsis(ev), !.everComplete = s0.everComplete \/ c1],
+    IN  [ s |-> [s1 EXCEPT !.cbs = s0.cbs \cup CbEsis(ev), !.everComplete = s0.everComplete \/ c1, !.viaCb = ViaCb(s0, s1)],
           fails |-> F(s0.phase = "configured" /\ s0.role = "dec", "INFRA", "driver-protocol")
                     \cup F(c1 => ev.st = OK, IF Complete(s0) THEN "C10" ELSE tagOk,
                            IF Complete(s0) THEN "finish-status-when-already-complete" ELSE "finish-status-not-ok-when-recoverable")
@@ -173,8 +177,8 @@ DoGetTab(s0, ev) ==
                     ELSE IF s0.finished THEN "C03,C01" ELSE "C04"
         expectOrigin(i) ==
             IF i \in s0.appHeld THEN {"app"}
-            ELSE IF i \in s0.appMaybe THEN {"app", IF WantsBuf(s0, i) THEN "cb" ELSE "lib"}
-            ELSE IF WantsBuf(s0, i) THEN {"cb"} ELSE {"lib"}
+            ELSE IF i \in s0.appMaybe THEN {"app", IF i \in s0.viaCb THEN "cb" ELSE "lib"}
+            ELSE IF i \in s0.viaCb THEN {"cb"} ELSE {"lib"}
     IN  [ s |-> s0,
           fails |-> F(IsRS(s0) /\ ~s0.done => ev.st # OK /\ nonnull = {}, "C10", "gettab-before-completion")
                     \cup F((~IsRS(s0) \/ s0.done) => ev.st = OK, "C10", "gettab-status")
